@@ -29,6 +29,9 @@ LOCAL_SEARCH = [["bioconsert", []], ["bioconsert", []], ["bioconsert", [["kwik"]
 
 def gen(rng, index, tier):
     case = c03.gen(rng, index, tier)
+    if case["scheme"]["family"] == "decimal":
+        # this check compares scores exactly: dyadic penalties only
+        case["scheme"] = lib.gen_scheme(rng, family=rng.choice(["preset", "grid"]))
     if rng.random() < 0.3:
         # local-search bookkeeping under schemes whose scores are close to each other (relatively: `large`, absolutely:
         # `fine`, `close`): several departures, several local optima with nearly equal scores, all rankings requested
